@@ -1,13 +1,21 @@
 //! Full-verifier harness: hfull <cmd> [--seed n] [--tier t] [--out file] [--repo /repo] ...
 mod layouts;
 mod load;
+mod malformed;
 mod domains;
 mod matrix;
+mod mutate;
+mod queries;
+mod resmon;
+mod tamper;
 mod recorded;
 mod trace;
 mod stone;
 
 use vcommon::report::{Args, Report};
+
+#[global_allocator]
+static ALLOC: resmon::CountingAlloc = resmon::CountingAlloc;
 
 fn dump(args: &Args) -> Report {
     let files = load::shipped(&args.str("repo", "/repo"));
@@ -46,6 +54,9 @@ fn main() {
         "matrix" => Some(matrix::run(&args)),
         "domains" => Some(domains::run(&args)),
         "recorded" => Some(recorded::run(&args)),
+        "tamper" => Some(tamper::run(&args)),
+        "malformed" => Some(malformed::run(&args)),
+        "queries" => Some(queries::run(&args)),
         _ => vcomp::dispatch(&args),
     };
     match rep {
